@@ -469,7 +469,37 @@ func (o *C08) seqCheck(w *World) {
 	}
 }
 
-func (o *C08) AfterBegin(w *World) { o.seqCheck(w) }
+// usableSets: a signer set the hub publishes for a contract must be able to pass the contract's threshold when all
+// of its members sign — the contract installs any set its current signers confirm without looking at the new
+// powers, and a set that can never reach the threshold leaves the bridge without anyone able to execute anything.
+func (o *C08) usableSets(w *World) {
+	if w.Tainted || w.Halted != "" {
+		return
+	}
+	t := w.T()
+	for _, ch := range []string{"ethereum", "bsc"} {
+		e := w.Eth[ch]
+		if e == nil {
+			continue
+		}
+		for n, s := range t.Cur.SSets[ch] {
+			if _, old := t.Prev.SSets[ch][n]; old || len(s.Signers) == 0 {
+				continue
+			}
+			w.St.Check("C08:usable-set")
+			sum := new(big.Int)
+			for _, m := range s.Signers {
+				sum.Add(sum, new(big.Int).SetUint64(m.Power))
+			}
+			if sum.Cmp(e.PowerThreshold) <= 0 {
+				w.Fail("C08", "usable-set", ch, fmt.Sprintf("%s: signer set %d published by the hub has %d members with a combined power of %s; the contract requires more than %s, so once installed even unanimous confirmations execute nothing", ch, n, len(s.Signers), sum, e.PowerThreshold))
+				return
+			}
+		}
+	}
+}
+
+func (o *C08) AfterBegin(w *World) { o.seqCheck(w); o.usableSets(w) }
 
 // AfterEnd: an execution the external chain reports must find the batch the hub was waiting for — otherwise
 // hub and contract have drifted apart on what is still owed.
